@@ -1035,14 +1035,17 @@ package go9p
 //@   ensures  [C07 C04 cleanup] old(req.status) & 4 == 0 ==> pp
 //@   ghost hasnext bool = false
 //@   at unlock(conn.Unlock) ghost hasnext := nextreq != nil
-// a request answered while others share its tag leaves the table entry (the newest of the group) alone;
-// the last one of its tag removes the entry
-//@   at unlock(conn.Unlock) requires [C08 C03 table] (nextreq != nil ==> inmap(conn.reqs, req.Tc.Tag) == old(inmap(req.Conn.reqs, req.Tc.Tag)) && conn.reqs[req.Tc.Tag] == old(req.Conn.reqs[req.Tc.Tag])) && (nextreq == nil ==> !inmap(conn.reqs, req.Tc.Tag))
+// (from the property: requests sharing a tag run one at a time in arrival order) a request answered while newer ones
+// share its tag leaves the table entry (the newest of the group) alone; the newest one, cancelled while older ones are
+// still outstanding, hands the entry to the next older one; only the last one of its tag removes the entry
+//@   at unlock(conn.Unlock) requires [C08 C03 table] (old(req.prev) != nil ==> inmap(conn.reqs, req.Tc.Tag) == old(inmap(req.Conn.reqs, req.Tc.Tag)) && conn.reqs[req.Tc.Tag] == old(req.Conn.reqs[req.Tc.Tag])) && (old(req.prev) == nil && old(req.next) != nil ==> inmap(conn.reqs, req.Tc.Tag) && conn.reqs[req.Tc.Tag] == old(req.next) && old(req.next).prev == nil) && (old(req.prev) == nil && old(req.next) == nil ==> !inmap(conn.reqs, req.Tc.Tag))
 // the reply of a flushed request goes out before the Rflush of the flushes waiting on it
 //@   ghost queued bool = false
 //@   at send(conn.reqout) ghost queued := true
 //@   at call((*SrvReq).Respond) requires [C07 C03 replyfirst] status & 1 != 0 || queued
 //@   ensures  [C08 C07 successor] old(req.status) & 4 == 0 && hasnext ==> started
+// the request started next is the one that was queued behind this one, and the flushes waiting on this one move to it
+//@   at go((*SrvReq).process) requires [C08 C07 rightsuccessor] arg0 == old(req.prev)
 //@   assigns  everything
 
 //@ func (*Srv).version(srv, req)
@@ -1430,6 +1433,13 @@ package go9p
 //@   at call(os/user.LookupId) ensures ret1 == nil ==> ret0 != nil
 //@   ghost nosys bool = false
 //@   at call(os.FileInfo.Sys) after nosys := ret == nil
+// the reported mtime is the file's modification time in whole seconds, truncated: Unix() of exactly the value
+// ModTime() returned (tunix is the uninterpreted meaning of time.Time.Unix)
+//@   ghost mtw int = 0
+//@   ghost mte int = 0
+//@   at call(os.FileInfo.ModTime) after mtw := fieldn(ret, 0)
+//@   at call(os.FileInfo.ModTime) after mte := fieldn(ret, 1)
+//@   at call((time.Time).Unix) requires [C16 mtime] fieldn(arg0, 0) == mtw && fieldn(arg0, 1) == mte
 //@   ensures  [C15 C16 total] st == nil ==> nosys
 //@   ensures  [C15 C16 noerr] st != nil ==> err == nil
 //@   ensures  st != nil ==> strsok(st) && statsize(st, dotu) <= 65535
@@ -1573,6 +1583,15 @@ package go9p
 //@ rec hist(l int, k int) int
 //@ pure lmatch(it, f) = (f.owner == nil || it.Owner == f.owner) && (f.itype == 0 || it.Type == f.itype)
 //@ pure age(l, p) = ite(l.idx - 1 - p >= 0, l.idx - 1 - p, l.idx - 1 - p + len(l.items))
+
+// every Filter call has its own reply channel: the answer to one caller cannot reach another
+//@ func (*Logger).Filter(l, owner, itype) (r)
+//@   property C20
+//@   requires l != nil
+//@   ghost mych int = 0
+//@   at make(chan []*Log) after mych := ret
+//@   at send(l.fltchan) requires [C20 private] mych != 0 && arg1 != nil && arg1.fltchan == mych && arg1.owner == owner && arg1.itype == itype
+//@   at recv(*) requires [C20 private] arg0 == mych
 
 //@ func (*Logger).doLog(l)
 //@   property C20 C06
@@ -1885,6 +1904,9 @@ package go9p
 //@ guarded Conn.npend by Conn
 //@ guarded Conn.maxpend by Conn
 //@ guarded SrvReq.status by SrvReq
+// (the flush list of a request is changed and read under its connection's lock; once a request is answered its list is
+// private to the answering goroutine, which the discipline cannot express: those accesses stay unproved and unclaimed)
+//@ guarded SrvReq.flushreq by SrvReq.Conn
 //@ guarded SrvFid.refcount by SrvFid
 // (SrvReq.next/prev/flushreq are guarded by the connection lock only while the request is linked from conn.reqs;
 //  that ownership transfer is not expressible in the held-set discipline and is not checked)
